@@ -518,9 +518,23 @@ class _GzipSeam(object):
         return getattr(real_gzip, name)
 
 
+def _zip_seam(fs):
+    """stands in for `ZipFile` inside shexer.utils.factories.triple_yielders_factory: members opened from such an archive
+    deliver their lines through the armed read fault (SimFS.read_fault_left, counted in lines) like plain files do"""
+    import zipfile
+
+    class SimZipFile(zipfile.ZipFile):
+        def open(self, name, mode="r", *a, **k):
+            real = zipfile.ZipFile.open(self, name, mode, *a, **k)
+            if "r" in mode:
+                return _GzLines(fs, real, str(getattr(name, "filename", name)), kind="zip")
+            return real
+    return SimZipFile
+
+
 class _GzLines(object):
-    def __init__(self, fs, real, path):
-        self.fs, self.real, self.path = fs, real, path
+    def __init__(self, fs, real, path, kind="gz"):
+        self.fs, self.real, self.path, self.kind = fs, real, path, kind
 
     def __enter__(self):
         return self
@@ -533,7 +547,7 @@ class _GzLines(object):
         for l in self.real:
             if fs.read_fault_left == 0:
                 fs.read_fault_left = -1
-                fs.sim.faults["source_gz_" + fs.read_errno.lower()] += 1
+                fs.sim.faults["source_%s_%s" % (self.kind, fs.read_errno.lower())] += 1
                 fs.sim.log.add("read", "fault:" + fs.read_errno, os.path.basename(self.path))
                 raise OSError(getattr(errno, fs.read_errno), "simulated " + fs.read_errno)
             if fs.read_fault_left > 0:
@@ -686,6 +700,9 @@ class Sim(object):
         import shexer.io.line_reader.file_line_reader as flr
         self._saved_gzip = gzr.gzip
         gzr.gzip = _GzipSeam(self.fs)
+        import shexer.utils.factories.triple_yielders_factory as tyf
+        self._saved_zipfile = tyf.ZipFile
+        tyf.ZipFile = _zip_seam(self.fs)
         import shexer.io.shex.formater.shex_serializer as ss
         import shexer.core.instances.abstract_instance_tracker as ait
         import rdflib.parser as rp
@@ -716,6 +733,8 @@ class Sim(object):
         import shexer.io.line_reader.gz_line_reader as gzr
         import shexer.io.line_reader.file_line_reader as flr
         gzr.gzip = self._saved_gzip
+        import shexer.utils.factories.triple_yielders_factory as tyf
+        tyf.ZipFile = self._saved_zipfile
         import shexer.io.shex.formater.shex_serializer as ss
         import rdflib.parser as rp
         s = self._saved
